@@ -69,18 +69,19 @@ type loopCtx struct {
 }
 
 type tr struct {
-	w     *World
-	u     *Unit
-	reg   map[string]*Unit
-	aux   []string
-	nloop int
-	nvar  int
-	fail  string
-	loop  *loopCtx
-	used  map[string]bool // lean names in use
-	notes []string
-	pre   []string        // effect recordings to be emitted before the statement being translated
-	noLit map[string]bool // Go variables carried by a loop: never bound to a literal
+	w       *World
+	u       *Unit
+	reg     map[string]*Unit
+	aux     []string
+	nloop   int
+	nvar    int
+	fail    string
+	loop    *loopCtx
+	used    map[string]bool // lean names in use
+	notes   []string
+	pre     []string        // effect recordings to be emitted before the statement being translated
+	noLit   map[string]bool // Go variables carried by a loop: never bound to a literal
+	commaOk bool            // translating the right-hand side of `v, ok := m[k]`
 }
 
 func (t *tr) takePre() string {
@@ -248,7 +249,18 @@ func (t *tr) expr(e ast.Expr, en env) V {
 		}
 		if strings.HasPrefix(x.T, "Map ") {
 			_, vt := mapTypes(x.T)
-			return V{fmt.Sprintf("(%s %s)", x.L, i.L), "Option " + vt}
+			if t.commaOk {
+				return V{fmt.Sprintf("(%s %s)", x.L, i.L), "Option " + vt}
+			}
+			if strings.HasPrefix(vt, "List ") {
+				return V{fmt.Sprintf("((%s %s).getD [])", x.L, i.L), vt}
+			}
+			z, ok := zeroByLean[vt]
+			if !ok {
+				return t.bad("zero value of %s", vt)
+			}
+			t.notes = append(t.notes, "a single-valued read `m[k]` of a missing key yields the zero value (for math.Int: a nil Int whose use panics — excluded by a hypothesis of the tie theorem)")
+			return V{fmt.Sprintf("((%s %s).getD %s)", x.L, i.L, z), vt}
 		}
 		return t.bad("index on %s", x.T)
 	case *ast.CallExpr:
@@ -378,6 +390,14 @@ func (t *tr) composite(e *ast.CompositeLit, en env) V {
 			return t.bad("empty slice literal")
 		}
 		return V{"[" + strings.Join(parts, ", ") + "]", "List " + elT}
+	}
+	if mt, ok := e.Type.(*ast.MapType); ok && len(e.Elts) == 0 {
+		kt, ok1 := goTypeNames[t.w.render(mt.Key)]
+		vt, ok2 := goTypeNames[t.w.render(mt.Value)]
+		if !ok1 || !ok2 {
+			return t.bad("map literal %s", t.w.render(e.Type))
+		}
+		return V{"(fun _ => none)", "Map " + kt + " " + vt}
 	}
 	name := baseTypeName(e.Type)
 	if strings.HasSuffix(name, "Response") && len(e.Elts) == 0 {
@@ -1005,7 +1025,9 @@ func (t *tr) assign0(s *ast.AssignStmt, en env) (string, env) {
 	if len(s.Lhs) > 1 && len(s.Rhs) == 1 {
 		// map read with ok
 		if ix, ok := s.Rhs[0].(*ast.IndexExpr); ok && len(s.Lhs) == 2 {
+			t.commaOk = true
 			v := t.expr(ix, en)
+			t.commaOk = false
 			if !strings.HasPrefix(v.T, "Option ") {
 				return t.failf("comma-ok on %s", v.T), en
 			}
@@ -1132,13 +1154,22 @@ func (t *tr) assign0(s *ast.AssignStmt, en env) (string, env) {
 			}
 			upd := strings.ReplaceAll(strings.ReplaceAll(st.L, "%1", bv.lean), "%2", v.L)
 			out += fmt.Sprintf("let %s : %s := %s\n", bv.lean, leanType(bv.t), upd)
-			// write-back through a pointer obtained from a map (res.M[k] = p; p.F = …)
+			// write-back through a pointer obtained from a map entry
 			if al, ok := t.u.Alias[base.Name]; ok {
-				mv, ok := en.m[al.Map]
+				bs, ok1 := en.m[al.Base]
 				kv, ok2 := en.m[al.Key]
-				if ok && ok2 {
-					out += fmt.Sprintf("let %s : %s := Go.mapSet %s %s %s\n", mv.lean, leanType(mv.t), mv.lean, kv.lean+al.KeyField, bv.lean)
+				if !ok1 || !ok2 {
+					return t.failf("alias of %s: %s or %s unbound", base.Name, al.Base, al.Key), en
 				}
+				fl, ok3 := fields[bs.t][al.Field]
+				st2, ok4 := setters[bs.t+"."+al.Field]
+				if !ok3 || !ok4 {
+					return t.failf("alias of %s: field %s of %s", base.Name, al.Field, bs.t), en
+				}
+				cur := strings.ReplaceAll(fl.L, "%s", bs.lean)
+				upd2 := strings.ReplaceAll(strings.ReplaceAll(st2.L, "%1", bs.lean), "%2",
+					fmt.Sprintf("(Go.mapSet %s %s %s)", cur, kv.lean+al.KeyField, bv.lean))
+				out += fmt.Sprintf("let %s : %s := %s\n", bs.lean, leanType(bs.t), upd2)
 			}
 		case *ast.IndexExpr:
 			m := t.expr(l.X, en)
@@ -1215,8 +1246,8 @@ func assignedOuter(body *ast.BlockStmt, en env, alias map[string]aliasSpec) []st
 					set[x.Name] = true
 				}
 				if al, ok := alias[x.Name]; ok {
-					if _, ok := en.m[al.Map]; ok {
-						set[al.Map] = true
+					if _, ok := en.m[al.Base]; ok {
+						set[al.Base] = true
 					}
 				}
 			}
@@ -1651,6 +1682,9 @@ func (w *World) translateUnits() map[string]string {
 		b.WriteString("  Each definition is the translation of the named Go function of /repo as it is NOW;\n")
 		b.WriteString("  Fundraising/Proofs/Tie/*.lean prove each equal to the hand-written model.\n-/\n")
 		b.WriteString("import Fundraising.Tables.GoSem\n")
+		if g == "Match" {
+			b.WriteString("import Fundraising.Tables.GoSemMatch\n")
+		}
 		for _, d := range groupDeps[g] {
 			b.WriteString("import Fundraising.Generated.Code." + d + "\n")
 		}
